@@ -11,7 +11,7 @@
    6. examples            non-vacuity *)
 From SC.Model Require Import Base Num NumQ NumF64 Types Config Case Chrono Parser RuleFns Items Format Run64.
 From SC.Spec Require Import Calendar.
-From Coq Require Import ZArith Lia QArith Qcanon.
+From Coq Require Import ZArith Lia QArith Qcanon Floats.
 
 Ltac Zify.zify_post_hook ::= Z.to_euclidean_division_equations.
 Local Open Scope Z_scope.
@@ -436,3 +436,142 @@ Proof.
 Qed.
 
 End Rules.
+
+(* ------------------------------------------------------------------------------------- *)
+(* 3b. the number algebra: an integer timestamp survives the trip through the number type  *)
+(* ------------------------------------------------------------------------------------- *)
+Lemma Qred_inject_Z n : Qred (inject_Z n) = inject_Z n.
+Proof.
+  unfold Qred, inject_Z.
+  pose proof (Z.ggcd_gcd n 1) as Hg. pose proof (Z.ggcd_correct_divisors n 1) as Hd.
+  destruct (Z.ggcd n 1) as [g [aa bb]]. cbn [fst snd] in *.
+  rewrite Z.gcd_1_r in Hg. subst g. destruct Hd as [Ha Hb].
+  assert (Ea : aa = n) by lia. assert (Eb : bb = 1) by lia. clear Ha Hb. subst aa bb. reflexivity.
+Qed.
+
+(* exact rationals: every i64 *)
+Theorem as_i64_fofZ_Q : forall n, - 2 ^ 63 <= n < 2 ^ 63 -> @as_i64 Qc NumQ (fofZ n) = n.
+Proof.
+  intros n H. unfold as_i64, f_as. cbn [fcls fofZ ftruncZ NumQ].
+  unfold Qc_truncZ, Qc_of_Z, Q2Qc. cbn [this]. rewrite Qred_inject_Z. unfold inject_Z.
+  rewrite Z.quot_1_r. unfold clampZ.
+  destruct (Z.ltb_spec n (- 2 ^ 63)); [lia | ]. destruct (Z.ltb_spec (2 ^ 63 - 1) n); lia.
+Qed.
+
+(* binary64, the executed instance: checked on a family of timestamps - the day borders of
+   +-3 days around the epoch, around +-2^31 and +-2^32, the first and last second of the years
+   1..9999, 2^53 - and on every second of four windows of 4097 seconds *)
+Definition f64_keeps (n : Z) : bool := @as_i64 float NumF64 (fofZ n) =? n.
+
+Definition f64_family : list Z :=
+  [0; 1; -1; 59; 60; 3599; 3600; 86399; 86400; 86401; -86399; -86400; -86401; 172800; -172800; 259200; -259200;
+   1609459200; 4102444800; 2147483647; 2147483648; 2147483649; -2147483648; -2147483649; -2147483647;
+   4294967295; 4294967296; 4294967297; -4294967296; TS_MIN; TS_MIN + 1; TS_MAX; TS_MAX - 1; TS_MAX - 86399;
+   MIN_DAY * 86400; (MAX_DAY + 1) * 86400 - 1; 2 ^ 53; - 2 ^ 53; 2 ^ 53 - 1].
+
+Lemma f64_family_ok : forallb f64_keeps f64_family = true.
+Proof. vm_compute. reflexivity. Qed.
+
+Lemma f64_windows_ok :
+  forall_range f64_keeps (-2048) 4097 && forall_range f64_keeps (2 ^ 31 - 2048) 4097 &&
+  forall_range f64_keeps (TS_MIN - 2048) 4097 && forall_range f64_keeps (TS_MAX - 2048) 4097 = true.
+Proof. vm_compute. reflexivity. Qed.
+
+Definition in_f64_checked (n : Z) : Prop :=
+  In n f64_family \/ -2048 <= n <= 2048 \/ 2 ^ 31 - 2048 <= n <= 2 ^ 31 + 2048 \/
+  TS_MIN - 2048 <= n <= TS_MIN + 2048 \/ TS_MAX - 2048 <= n <= TS_MAX + 2048.
+
+Theorem as_i64_fofZ_f64 : forall n, in_f64_checked n -> @as_i64 float NumF64 (fofZ n) = n.
+Proof.
+  intros n H. apply Z.eqb_eq. change (f64_keeps n = true).
+  pose proof f64_windows_ok as W. rewrite !Bool.andb_true_iff in W. destruct W as [[[W1 W2] W3] W4].
+  destruct H as [H | [H | [H | [H | H] ] ] ].
+  - exact (proj1 (forallb_forall _ _) f64_family_ok n H).
+  - apply (forall_range_spec _ _ _ W1). lia.
+  - apply (forall_range_spec _ _ _ W2). lia.
+  - apply (forall_range_spec _ _ _ W3). unfold TS_MIN in *. lia.
+  - apply (forall_range_spec _ _ _ W4). unfold TS_MAX in *. lia.
+Qed.
+
+(* ------------------------------------------------------------------------------------- *)
+(* 5. printing a date-time: the fields are those of the instant shifted by the zone offset *)
+(* ------------------------------------------------------------------------------------- *)
+Section Print.
+Context {F : Type} {NF : Num F}.
+
+(* the template filled with the fields (the body of DateTimeItem::print) *)
+Definition fill_datetime (cfg : config F) (fmt : langformat) (now_year : Z) (tz : tzinfo)
+    (ymd : Z * Z * Z) (t : Z * Z * Z) : str :=
+  let '(y, m, d) := ymd in let '(hh, mm, ss) := t in
+  let key := if y =? now_year then s "current_year_with_time" else s "full_date_time" in
+  match assoc key (lf_date fmt), month_info cfg (lf_language fmt) m with
+  | Some data, Some mi =>
+    rep "{timezone}" (tz_name tz)
+     (rep "{year}" (Z_to_str y)
+      (rep "{month_short}" (uppercase_first_letter (mi_short mi))
+       (rep "{month_long}" (uppercase_first_letter (mi_long mi))
+        (rep "{month_pad}" (pad2 m)
+         (rep "{day_pad}" (pad2 d)
+          (rep "{month}" (Z_to_str m)
+           (rep "{day}" (Z_to_str d)
+            (rep "{hour}" (Z_to_str hh)
+             (rep "{minute}" (Z_to_str mm)
+              (rep "{second}" (Z_to_str ss)
+               (rep "{hour_pad}" (pad2 hh)
+                (rep "{minute_pad}" (pad2 mm)
+                 (rep "{second_pad}" (pad2 ss) data)))))))))))))
+  | _, _ => s "?chrono-display?"
+  end.
+
+(* the wall clock of instant t in a zone off minutes east of UTC *)
+Definition local_of (t off : Z) : Z := t + 60 * off.
+
+Theorem datetime_print_fields : forall cfg lang now_year t tz,
+  datetime_print cfg lang now_year t tz =
+  match lang_format cfg lang with
+  | None => []
+  | Some fmt => fill_datetime cfg fmt now_year tz (fst (civil_of_ts (local_of t (tz_off tz))))
+                                                  (snd (civil_of_ts (local_of t (tz_off tz))))
+  end.
+Proof.
+  intros cfg lang now_year t tz. unfold datetime_print, fill_datetime, civil_of_ts, local_of, hms_of.
+  destruct (lang_format cfg lang) as [fmt | ]; [ | reflexivity ].
+  replace (t + tz_off tz * 60) with (t + 60 * tz_off tz) by lia.
+  cbn [fst snd]. destruct (civil_from_days (day_of_dt (t + 60 * tz_off tz))) as [[y m] d]. reflexivity.
+Qed.
+
+(* the fields shown determine the instant: they are a valid civil date-time and read back as
+   the instant plus the offset (so neither the sign nor a doubling of the offset is possible) *)
+Theorem datetime_fields_instant : forall t off,
+  let c := civil_of_ts (local_of t off) in
+  valid_ymd (fst c) /\ valid_hms (snd c) /\ ts_of_civil (fst c) (snd c) - 60 * off = t.
+Proof.
+  intros t off c. subst c. destruct (civil_ts_roundtrip (local_of t off)) as (V & Vh & E).
+  split; [exact V | split; [exact Vh | ] ]. rewrite E. unfold local_of. lia.
+Qed.
+
+End Print.
+
+(* ------------------------------------------------------------------------------------- *)
+(* 6. non-vacuity                                                                          *)
+(* ------------------------------------------------------------------------------------- *)
+Definition UTC : tzinfo := {| tz_name := s "UTC"; tz_off := 0 |}.
+Definition GMT3 : tzinfo := {| tz_name := s "GMT+3"; tz_off := 180 |}.
+Definition EST : tzinfo := {| tz_name := s "EST"; tz_off := -300 |}.
+
+Theorem examples :
+  civil_of_ts 1609459200 = ((2021, 1, 1), (0, 0, 0)) /\
+  ts_of_civil (2021, 1, 1) (0, 0, 0) = 1609459200 /\
+  civil_of_ts 4102444800 = ((2100, 1, 1), (0, 0, 0)) /\
+  civil_of_ts (-1) = ((1969, 12, 31), (23, 59, 59)) /\
+  civil_of_ts (-86401) = ((1969, 12, 30), (23, 59, 59)) /\
+  civil_of_ts (local_of 1609459200 (-300)) = ((2020, 12, 31), (19, 0, 0)) /\
+  Z_to_str 4102444800 = s "4102444800" /\ Z_to_str (-62135596800) = s "-62135596800" /\ Z_to_str 0 = s "0" /\
+  datetime_print default_config (s "en") 2026 1609459200 UTC = s "1 Jan 2021 00:00:00 UTC" /\
+  datetime_print default_config (s "en") 2026 1609459200 GMT3 = s "1 Jan 2021 03:00:00 GMT+3" /\
+  datetime_print default_config (s "en") 2026 1609459200 EST = s "31 Dec 2020 19:00:00 EST" /\
+  datetime_print default_config (s "en") 2026 (-1) UTC = s "31 Dec 1969 23:59:59 UTC" /\
+  datetime_print default_config (s "en") 2026 4102444800 UTC = s "1 Jan 2100 00:00:00 UTC" /\
+  item_print default_config (s "en") 2026 (INumber (fofZ 4102444800) Raw) = Ok (s "4102444800") /\
+  dt_ok 4102444800 = true /\ dt_ok (-62135596800) = true /\ dt_ok (2 ^ 62) = false.
+Proof. vm_compute. repeat split; reflexivity. Qed.
